@@ -15,7 +15,8 @@ CLAIMS = {
        "over all interface methods (Ok and Err exits alike); every loop needs a termination certificate; unknown external callees "
        "fail closed. Decides panic-, overflow-, abort- and hang-freedom for all streams, lengths, call orders and capacities. "
        "Not decided: termination when a caller-supplied byte source never ends.",
-  note="A1 MIR faithful; A2 reviewed std/crc summaries; A3 64-bit, <2^56 counter updates (rule U for the usize byte counters); "
+  note="A1 MIR faithful; A2 reviewed std/crc summaries; A3 64-bit: 64-bit counters of stateful objects are bounded by 2^62 in the object invariants, with the checked side "
+       "condition R-C05-COUNTER (every method leaves such a field small or bounded by a pre-state field plus 2^16), and rule U for other usize counters; "
        "A4 caller-supplied iterators/readers return; A6 sealing; A7 derived impls. One reviewed panic (ArrayBuf::from_iter) outside the entry points.",
   ref="DESIGN.md §4 C05, §2.3-2.4"),
  "C06": dict(
@@ -45,10 +46,10 @@ CLAIMS = {
   ref="DESIGN.md §4 C02"),
  "C08": dict(
   technique="transition-relation extraction by abstract interpretation, compared cell by cell with the KMP automaton",
-  text="Structural clause: the LookingForMessageStart partition of push_byte is analysed with symbolic matcher state n in [0,7] and symbolic "
-       "byte; its abstract paths are the extracted transition relation. For all 8 x 256 (n, b) pairs exactly one transition must be enabled and "
+  text="Structural clause: the LookingForMessageStart partition of push_byte is analysed once per matcher state n in 0..7 (concrete, so that "
+       "table-driven or generically computed matchers evaluate) with a symbolic byte; its abstract paths are the extracted transition relation. For all 8 x 256 (n, b) pairs exactly one transition must be enabled and "
        "equal the KMP automaton of 1b1b1b1b01010101 including the discarded-byte increment n+1-n'; the hand-off state when the sequence "
-       "completes must equal the in-frame restart state (fresh frame) and report the noise count. Not decided: delivery of the following frame (C01).",
+       "completes must equal the in-frame restart state (fresh frame, 8 bytes pending as observed through reset()) and report the noise count. Not decided: delivery of the following frame (C01).",
   note="A1, A2; start sequence taken from the specification constant",
   ref="DESIGN.md §4 C08"),
  "C13": dict(
@@ -61,7 +62,7 @@ CLAIMS = {
   ref="DESIGN.md §4 C13"),
  "C14": dict(
   technique="typestate analysis: abstract post-states compared field-wise with the abstract Default value; ghost CRC tracking",
-  text="For every partition of the decoder's inferred invariant the abstract post-state of reset, finalize and of every push_byte outcome "
+  text="For every partition of the decoder's inferred invariant the abstract post-state of reset, finalize (what they report is C17's clause) and of every push_byte outcome "
        "class is compared field by field with the abstract value of Default::default(), and the buffer must have been cleared on the path. "
        "From Done the byte is processed by a decoder that was reset first. The CRC digest (the one field reset leaves alone) is dead in the "
        "idle state and every frame start re-initialises it and feeds it exactly the start sequence. State equality of a deterministic object "
@@ -69,18 +70,19 @@ CLAIMS = {
   note="A1, A2, A6",
   ref="DESIGN.md §4 C14"),
  "C16": dict(
-  technique="path-sensitive value-range analysis with per-path ghost logs of buffer writes; who-may-call rule",
+  technique="path-sensitive value-range analysis with per-path ghost logs of buffer writes; buffer-contract monitor",
   text="Structural clauses: zeros flushed on success = withheld - pad (linear fact), only zeros are flushed, a data byte is written after "
-       "exactly the withheld zeros, at most 4 zeros are withheld (invariant), the decoder core has one buffer-write site, a failed write "
+       "exactly the withheld zeros, at most 4 zeros are withheld (invariant), a failed buffer write - wherever it is issued - "
        "becomes Err(OutOfMemory) on every path and OutOfMemory is reported only then (no truncation), default buffer = ArrayBuf<8192>. "
        "Not decided: that capacity L always suffices for an L-byte payload (needs the reconstruction argument of C01).",
   note="A1, A2, A6; ArrayBuf exactness is C18",
   ref="DESIGN.md §4 C16"),
  "C17": dict(
-  technique="linear-fact conservation check over typestate partitions (incl. inferred relational invariant); type-width table",
-  text="For every abstract outcome of push_byte from every partition the analysis proves pending_before + 1 = reported + pending_after "
-       "(using the inferred relational invariant raw_msg_len = discarded + matched in the matcher state); finalize and reset report exactly "
-       "the pending counter; every counter, payload and return type on the way is usize and no reported value contains a truncated or wrapped "
+  technique="linear-fact conservation check over typestate partitions with the pending count observed through reset() (observer abstraction); type-width table",
+  text="The number of pending bytes of a decoder value is by definition what reset() would return on it (reset is run as a probe on abstract pre- and post-states, so "
+       "which field holds the count in which state does not matter). For every abstract outcome of push_byte from every partition the analysis proves "
+       "pending_before + 1 = reported + pending_after, 0 pending after a delivered or rejected frame, for a new decoder and after reset / finalize; finalize reports exactly "
+       "the pending count and None iff it is 0; every counter, payload and return type on the way is usize and no reported value contains a truncated or wrapped "
        "intermediate. Not decided: which bytes belong to a delivered frame (C02/C01).",
   note="A1, A2, A3",
   ref="DESIGN.md §4 C17"),
@@ -160,9 +162,10 @@ CLAIMS = {
        "consumed bytes (specification-side ghost accumulator related to the parser's own variables by the loop invariant) minus the consumed "
        "byte count unless the type is a list, every TlfParseError variant that exists is reachable (a check that can never fail is a "
        "contradiction); type table and byte decomposition are compared over "
-       "all 256 byte values; integers: exactly len bytes taken, right-aligned copy to [SIZE-len,SIZE), fill 0xff iff signed and first byte "
-       ">= 0x80, from_be_bytes of the same type; bool = byte != 0; octet string = take_n(len); take_* return exactly prefix and rest.",
-  note="A1, A2, A3; integer exactness is decided through the three structural facts, not by evaluating numbers",
+       "all 256 byte values; integers: for every type and admissible length, on parse_with_tlf itself with a symbolic input: exactly len bytes taken and the "
+       "returned value proved equal to sum b_i * 256^(len-1-i), minus 2^(8 len) iff signed and b_0 >= 0x80 (linear arithmetic with exact wrap-around; the "
+       "canonical fill-array + from_be_bytes construction is the accepted fallback); bool = byte != 0; octet string = take_n(len); take_* return exactly prefix and rest.",
+  note="A1, A2, A3; integer exactness is an equation between symbolic expressions over the input bytes, not an evaluation of sample numbers",
   ref="DESIGN.md §4 C12"),
  "C15": dict(
   technique="faithful-driver rules: protocol monitor over ghost state (reader), value-identity facts on abstract paths (iterator, decode) plus CFG must-pass-through rules",
